@@ -11,7 +11,10 @@ CFG = dict(
          "wave; non-trivial = at least one duplicate rejected. conf: 12 boundary families (look-back 100/101/130 transmit blocks across a "
          "power of ten, out-of-order delivery, empty transactions/reports) + VERIF_N/2 random deliveries through Listener -> ReportTracker, "
          "transmits stamped by the real loader; non-trivial = at least one event returned. direct.json: real BlockBroadcaster with "
-         "per-subscriber delays and 1..7 listeners under synctest (every listener gets every block once, same hash, final history exact). "
+         "per-subscriber delays and 1..7 listeners under synctest (every listener gets every block once, same hash, final history exact), and "
+         "15 subscribe / unsubscribe / re-subscribe churn runs on it (raw subscriptions and real Listeners; A,B subscribed - A leaves - C joins, "
+         "plus random churn): every subscriber gets exactly the blocks broadcast while attached, ids of live subscriptions are distinct, "
+         "an unsubscribed channel is closed and nobody else's is. "
          "distinct = structural hash of the generator-form input",
     trusted=["harness block source implementing chain.Broadcaster (controls arrival order)",
              "verif-tag hooks Listener/BlockHistoryTracker/ReportTracker.VerifStop (the services otherwise stop only in a finalizer)",
